@@ -526,6 +526,11 @@ def run_j2(chk, P):
                         key + ':val', loc, '%s ORs %s into job->status' % (name, s_['imm']))
             elif s_['kind'] == 'mov' and s_['src'] is not None and s_['src'][0] == 'I' and s_['src'][1] == s_['src'][2]:
                 r.check(s_['src'][1] in vals, key + ':val', loc, '%s stores %d into job->status' % (name, s_['src'][1]))
+                # a single stage bit is OR-ed in: the other stage of a chained job may already have set its bit
+                partial = (st.get('IMB_STATUS_COMPLETED_CIPHER'), st.get('IMB_STATUS_COMPLETED_AUTH'))
+                r.check(s_['src'][1] not in partial, key + ':or', loc,
+                        '%s overwrites job->status with the single stage bit %d instead of OR-ing it in: in the other chain order the bit of the '
+                        'stage already done is lost and that stage runs again' % (name, s_['src'][1]))
     chk.extra['asm_job_stores'] = n
 
 
